@@ -352,14 +352,14 @@ class ArrV:
         return z3.Select(self._field(self.arr.field), self.arr.lo + j)
 
     def at2(self, j, k):
-        return z3.Select(self._field(self.arr.field), self.arr.lo + j, k)
+        return sel2(self._field(self.arr.field), self.arr.lo + j, k)
 
     def f(self, field, j):
         assert self.arr.field is None
         return z3.Select(self._field(field), self.arr.lo + j)
 
     def f2(self, field, j, k):
-        return z3.Select(self._field(field), self.arr.lo + j, k)
+        return sel2(self._field(field), self.arr.lo + j, k)
 
     def col(self, field):
         return ArrV(self.eng, Arr(self.arr.base, field, self.arr.lo, self.arr.n), self.heap)
@@ -443,6 +443,8 @@ class Engine:
         self.scalars = []
         self.cur = None  # current contract
         self.canaries = 0
+        self.inv_of = {}  # ghost: base of a sorting permutation -> its inverse permutation (Arr)
+        self.S.eng = self
 
     # -- fresh symbols --------------------------------------------------------------
     def fresh(self, base, sort="int"):
@@ -477,7 +479,7 @@ class Engine:
         ver = cell.get("#ver", "")
         name = f"{base}.{field}{ver}"
         if fs.endswith("2"):
-            return z3.Array(name, z3.IntSort(), z3.IntSort(), zsort(fs[:-1]))
+            return z3.Array(name, z3.IntSort(), z3.ArraySort(z3.IntSort(), zsort(fs[:-1])))
         return z3.Array(name, z3.IntSort(), zsort(fs))
 
     def resolve(self, v, heap):
@@ -896,7 +898,7 @@ class Engine:
                 if base.ncols is not None and not isinstance(base.ncols, str):
                     self.oblige("safety", "column index in range", st, z3.And(0 <= j, j < base.ncols), node)
                 arr = self.heap_field(st.heap, base.base, base.field)
-                return k(z3.Select(arr, base.lo + i, j), st)
+                return k(sel2(arr, base.lo + i, j), st)
             i = self.to_int(idx)
             # negative constant indices: Python semantics
             ii = self.norm_index(i, base.n)
@@ -921,7 +923,7 @@ class Engine:
             ii = self.norm_index(i, base.n)
             self.oblige("safety", "sample index in range", st, z3.And(0 <= ii, ii < base.n), node)
             arr = self.heap_field(st.heap, base.base, base.field)
-            return k(z3.Select(arr, base.idx, base.lo + ii), st)
+            return k(sel2(arr, base.idx, base.lo + ii), st)
         if isinstance(base, Vec):
             i = self.to_int(idx)
             ii = self.norm_index(i, base.n)
@@ -1044,8 +1046,22 @@ class Engine:
             return k(st)
         return self.ev(s.value, st, fr, lambda v, s1: self.assign(s.target, v, s1, fr, k, s))
 
+    def materialize(self, vec, st, hint="vec"):
+        """Store a lazy element-wise vector into a fresh heap array (``x = a * b`` makes a new array)."""
+        base = self.new_base(hint)
+        probe = vec.fn(z3.IntVal(0))
+        sort = "bool" if z3.is_bool(probe) else ("real" if z3.is_real(probe) else "int")
+        cell = {"#sorts": {"": sort}}
+        st = St(st.env, {**st.heap, base: cell}, st.pc, st.ghost)
+        arr = self.heap_field(st.heap, base, "")
+        n = vec.n
+        st = st.assume(self.S.forall(0, n, lambda i: z3.Select(arr, i) == vec.fn(i)))
+        return Arr(base, "", z3.IntVal(0), n), st
+
     def assign(self, tgt, v, st, fr, k, node):
         if isinstance(tgt, ast.Name):
+            if isinstance(v, Vec):
+                v, st = self.materialize(v, st, tgt.id)
             v = self.coerce_local(tgt.id, v)
             return k(st.bind(tgt.id, v))
         if isinstance(tgt, (ast.Tuple, ast.List)):
@@ -1098,7 +1114,7 @@ class Engine:
                 if base.ncols is not None and not isinstance(base.ncols, str):
                     self.oblige("safety", "store column in range", st, z3.And(0 <= j, j < base.ncols), node)
                 arr = self.heap_field(st.heap, base.base, base.field)
-                return k(st.with_cell(base.base, base.field, z3.Store(arr, base.lo + i, j, self.num(v, arr.range()))))
+                return k(st.with_cell(base.base, base.field, sto2(arr, base.lo + i, j, self.num(v, arr.range().range()))))
             if isinstance(idx, str):
                 raise Unsupported("whole-column store")
             if base.field is None:
@@ -1121,7 +1137,7 @@ class Engine:
             self.oblige("safety", "sample store index in range", st, z3.And(0 <= ii, ii < base.n), node)
             arr = self.heap_field(st.heap, base.base, base.field)
             return k(st.with_cell(base.base, base.field,
-                                  z3.Store(arr, base.idx, base.lo + ii, self.num(v, arr.range()))))
+                                  sto2(arr, base.idx, base.lo + ii, self.num(v, arr.range().range()))))
         if isinstance(base, Ref) and base.kind == "dict":
             return k(self.dict_store(base, idx, v, st))
         if isinstance(base, Ref) and base.kind == "list":
@@ -1166,12 +1182,12 @@ class Engine:
         if isinstance(base, RowVec):
             a, ln = self.norm_slice(lo, hi, base.n)
             arr = self.heap_field(st.heap, base.base, base.field)
-            val = self.num(v, arr.range())
+            val = self.num(v, arr.range().range())
             # new array: pointwise update inside [a, a+ln) of row idx
             new = self.fresh(f"{base.base}.{base.field}", arr.sort())
             i, j = z3.Ints("si sj")
             inside = z3.And(i == base.idx, base.lo + a <= j, j < base.lo + a + ln)
-            ax = z3.ForAll([i, j], z3.Select(new, i, j) == z3.If(inside, val, z3.Select(arr, i, j)))
+            ax = z3.ForAll([i, j], sel2(new, i, j) == z3.If(inside, val, sel2(arr, i, j)))
             if self.S.finite is not None:
                 raise Unsupported("slice store in finite mode")
             s2 = st.with_cell(base.base, base.field, new)
@@ -1333,6 +1349,14 @@ class RowView:
 # ------------------------------------------------------------------------------------
 def _is_z3(x):
     return isinstance(x, z3.ExprRef)
+
+
+def sel2(arr, i, j):
+    return z3.Select(z3.Select(arr, i), j)
+
+
+def sto2(arr, i, j, v):
+    return z3.Store(arr, i, z3.Store(z3.Select(arr, i), j, v))
 
 
 def _is_boolish(x):
